@@ -22,6 +22,8 @@ VERIF = os.path.dirname(os.path.dirname(os.path.abspath(__file__)))
 REPO = os.environ.get("GATERY_REPO", "/repo")
 BUILD = os.environ.get("VERIF_BUILD", os.path.join(VERIF, ".build"))
 LEAN = os.environ.get("VERIF_LEAN", os.path.join(VERIF, "lean"))
+# where evidence/ and replays/ are written; mutation experiments set VERIF_OUT so that the committed evidence is not overwritten
+OUT = os.environ.get("VERIF_OUT", VERIF)
 ALLOWED_AXIOMS = {"propext", "Classical.choice", "Quot.sound"}
 FORBIDDEN = ["sorry", "admit", "native_decide", "bv_decide", "implemented_by", "unsafe ", "maxHeartbeats 0",
              "ofReduceBool", "reduceBool"]
@@ -222,14 +224,14 @@ class Check:
         self.cov = {}
         self.assumptions = []
         self.notes = []
-        os.makedirs(os.path.join(VERIF, "evidence"), exist_ok=True)
-        os.makedirs(os.path.join(VERIF, "replays"), exist_ok=True)
+        os.makedirs(os.path.join(OUT, "evidence"), exist_ok=True)
+        os.makedirs(os.path.join(OUT, "replays"), exist_ok=True)
 
     def log(self, *a):
         print("[%s %6.1fs]" % (self.prop, time.time() - self.t0), *a, flush=True)
 
     def replay_path(self, tag):
-        return os.path.join(VERIF, "replays", "%s-%s-seed%d.json" % (self.prop, tag, self.seed))
+        return os.path.join(OUT, "replays", "%s-%s-seed%d.json" % (self.prop, tag, self.seed))
 
     def violation(self, tag, payload, concrete, signature=None):
         """Record a violation. `concrete`=True if payload holds a failing input for the property itself.
@@ -259,7 +261,7 @@ class Check:
         }
         if self.known_hits:
             ev["known_findings_hit"] = self.known_hits
-        with open(os.path.join(VERIF, "evidence", self.prop + ".json"), "w") as o:
+        with open(os.path.join(OUT, "evidence", self.prop + ".json"), "w") as o:
             json.dump(ev, o, indent=1)
         # one line per distinct replay; prefer concrete ones first
         seen = set()
